@@ -38,7 +38,10 @@ namespace verif_drv
                        mem::allocator_storage<mem::reference_storage<mem::any_allocator>, std::mutex>&   j,
                        mem::allocator_storage<mem::reference_storage<mem::any_allocator>, mem::no_mutex>& k,
                        mem::allocator_storage<mem::reference_storage<min_stateful_allocator>, user_mutex>& l,
-                       mem::allocator_storage<mem::direct_storage<mem::iteration_allocator<2>>, std::mutex>& m)
+                       mem::allocator_storage<mem::direct_storage<mem::iteration_allocator<2>>, std::mutex>& m,
+                       mem::allocator_storage<mem::direct_storage<mem::tracked_allocator<counting_tracker, mem::heap_allocator>>, std::mutex>& n,
+                       mem::allocator_storage<mem::direct_storage<mem::aligned_allocator<mem::heap_allocator>>, std::mutex>& o,
+                       mem::allocator_storage<mem::direct_storage<mem::fallback_allocator<mem::memory_pool<>, mem::heap_allocator>>, user_mutex>& q)
     {
         storage_all_composable(a);
         storage_all_composable(b);
@@ -53,6 +56,9 @@ namespace verif_drv
         storage_all_composable(k);
         storage_all(l);
         storage_all_composable(m);
+        storage_all(n);
+        storage_all(o);
+        storage_all(q);
     }
 
     // type-erased references built from several allocator kinds (instantiates basic_allocator<...>)
